@@ -66,6 +66,10 @@ class Check:
         self.cases = 0
         self.distinct = set()
 
+    def nontrivial(self, info):
+        """a traced group counts as non-trivial if at least one trial step was computed (checks may override)"""
+        return info.get("ntrials", 0) >= 1
+
     @property
     def thorough(self):
         return self.tier == "thorough"
@@ -139,8 +143,8 @@ class Check:
         if len(self.samples) < 3:
             self.samples.extend(br.samples[: 3 - len(self.samples)])
         for inf in br.infos:
-            if inf.get("ntrials", 0) >= 1:
-                self.distinct.add(json.dumps(sweep._jsonable(inf), sort_keys=True))
+            if self.nontrivial(inf):
+                self.distinct.add(inf.get("_key") or json.dumps(sweep._jsonable(inf), sort_keys=True))
         mytag = "P:" + self.pid
         for n in br.notes:
             if n["tag"] == mytag:
